@@ -65,17 +65,24 @@ def source_gate():
     return hits
 
 
-def ensure_build(timeout=3000):
-    """Full .vo build of the development (no-op when fresh), serialised by a lock."""
+def ensure_build(targets=None, timeout=3000):
+    """Build of the development (no-op when fresh), serialised by a lock.
+    targets: list of theories-relative .v paths whose .vo (and dependencies) are
+    needed by this check; None = everything.  A full build is what setup_cmd
+    does; a check only insists on what it depends on, so that an unrelated
+    file that does not compile breaks that file's property, not all of them."""
     lock = open(os.path.join(COQ, ".build.lock"), "w")
     fcntl.flock(lock, fcntl.LOCK_EX)
     try:
-        if not os.path.exists(os.path.join(COQ, "Makefile")) or \
-                os.path.getmtime(os.path.join(COQ, "Makefile")) < os.path.getmtime(os.path.join(COQ, "_CoqProject")):
+        subprocess.run([os.path.join(VERIF, "bin", "mkproject")], check=True)
+        mk, cp = os.path.join(COQ, "Makefile"), os.path.join(COQ, "_CoqProject")
+        if not os.path.exists(mk) or os.path.getmtime(mk) < os.path.getmtime(cp):
             subprocess.run(["coq_makefile", "-f", "_CoqProject", "-o", "Makefile"], cwd=COQ, check=True,
                            stdout=subprocess.DEVNULL, stderr=subprocess.DEVNULL)
-        r = subprocess.run(["timeout", str(timeout), "make", "-j16"], cwd=COQ, stdout=subprocess.PIPE,
-                           stderr=subprocess.STDOUT, text=True)
+        cmd = ["timeout", str(timeout), "make", "-j16"]
+        if targets:
+            cmd += ["theories/" + t[:-2] + ".vo" for t in targets]
+        r = subprocess.run(cmd, cwd=COQ, stdout=subprocess.PIPE, stderr=subprocess.STDOUT, text=True)
         return r.returncode == 0, r.stdout[-4000:]
     finally:
         fcntl.flock(lock, fcntl.LOCK_UN)
